@@ -235,17 +235,19 @@ example : (match fromBytes exR with
     | .ok d => d.types.resources.map (·.alias.map (·.source)) == [none, some 0, none]
     | _ => false) = true := by decide +kernel
 
-/-! ### used-type provenance: only a *named* interface is ever used
+/-! ### used-type provenance across an interface without an id
 
-  Finding (this proof attempt): on the pinned code the global S3 statement
-  `∀ w d, fromBytes w = .ok d → specUsesSound d.types = none` is FALSE — `use_or_own` registered
-  every interface as the owner of the types it exports, also an interface without an id (an instance
-  imported under a plain name), a later user recorded `uses[u] = (that interface, t)`, and
-  `TypeEncoder::use_aliases` panicked `interface should have an id`.  Replay (harness c08 syntax,
-  corpus/C08/idless-used-interface.case):
+  Finding (made while trying to prove S3 `specUsesSound` globally): the first version of S3 demanded
+  that a used interface has an id, and `∀ w d, fromBytes w = .ok d → specUsesSound d.types = none`
+  is FALSE for it: an instance imported under a *plain* name (no `:`) gets no id, yet a later
+  interface that refers to one of its types records `uses[u] = (that interface, t)`.  The real code
+  does the same (MODEL agrees) and `TypeEncoder::use_aliases` then panicked
+  `interface should have an id`.  Replay (harness c08 syntax, corpus/C08/idless-used-interface.case):
   `CASE	c08-corpus-1	N	decode	wat	(component (import "foo" (instance $foo (export "t" (type (sub resource))))) (alias export $foo "t" (type $t)) (import "bar" (instance (export "u" (type (eq $t))))))`
-  Repair (package.rs `use_or_own`, mirrored by `ownerIdless` in the model): an interface without
-  an id never becomes an owner.  The theorems below are about the repaired converter. -/
+  Repair: in the encoder (an instance without an id is aliased through the index it was imported /
+  exported under); dropping the `use` in the decoder instead is *not* enough — the resource of `bar`
+  is the resource of `foo`, and without the `use` the encoder cannot say so (`no entry found for
+  key` in `export_resource`).  S3 no longer demands an id. -/
 
 /-- the validator's view of the replay above (as printed by the harness) -/
 def exPlain : WTypes :=
@@ -254,18 +256,15 @@ def exPlain : WTypes :=
     comps := [ { imports := [("foo".toList, .instance 0), ("bar".toList, .instance 1)], exports := [] } ],
     res := [ { base := 0, peel := none }, { base := 0, peel := some 0 } ] }
 
-/-- on the replay the repaired converter records no `uses` entry, S3 holds, and the second
-resource is still an alias of the first (identity is kept, only the provenance is dropped) -/
-theorem idless_interface_not_used :
+/-- on the replay: the converter records the provenance `u ↦ (interface 0, t)` although interface 0
+has no id, the second resource is an alias of the first, and S3 (without the id clause) holds -/
+theorem idless_interface_used :
     (match fromBytes exPlain with
-      | .ok d => (specUsesSound d.types).isNone && d.types.interfaces.all (·.uses.isEmpty) &&
+      | .ok d => (specUsesSound d.types).isNone &&
+          d.types.interfaces.map (fun i => (i.id, i.uses)) ==
+            [(none, []), (none, [("u".toList, { interface := 0, name := some "t".toList })]), (none, [])] &&
           d.types.resources.map (·.alias.map (·.source)) == [none, some 0]
       | _ => false) = true := by decide +kernel
-
-/-- every registered owner that is an interface has an id -/
-def OwnNamed (st : St) : Prop :=
-  ∀ a j n, lookup st.owners a = some (.interface j, n) →
-    ∀ itf, st.types.interfaces[j]? = some itf → itf.id.isSome = true
 
 theorem findOwner_mem (w : WTypes) (owners : List (WAny × (Owner × Str))) :
     ∀ (fuel : Nat) (a : WAny) (o : Owner × Str), findOwner w owners fuel a = some o →
@@ -283,106 +282,5 @@ theorem findOwner_mem (w : WTypes) (owners : List (WAny × (Owner × Str))) :
     · split at h
       · exact ih _ _ h
       · cases h
-
-/-- **use_provenance (named owners), step.**  `use_or_own` keeps "every owner that is an interface
-has an id", and the `uses` entry it records for an interface names such an owner: a synthesised
-`use` never points at an interface without an id.  (Global threading of `OwnNamed` through the
-conversion is the same induction as `mutual_ok`; it is not done — S3 is monitored per case.) -/
-theorem use_provenance_named_step (w : WTypes) (st st' : St) (owner : Owner) (name : Str)
-    (referenced created : WAny) (hinv : OwnNamed st)
-    (h : useOrOwn w st owner name referenced created = .ok st') :
-    OwnNamed st' ∧
-    ∀ j orig, findOwner w st.owners (w.res.length + w.defs.length + 1) referenced = some (.interface j, orig) →
-      ∀ itf, st.types.interfaces[j]? = some itf → itf.id.isSome = true := by
-  have hfound : ∀ j orig, findOwner w st.owners (w.res.length + w.defs.length + 1) referenced =
-      some (.interface j, orig) → ∀ itf, st.types.interfaces[j]? = some itf → itf.id.isSome = true := by
-    intro j orig hf
-    obtain ⟨a', ha'⟩ := findOwner_mem w st.owners _ _ _ hf
-    exact hinv a' j orig ha'
-  refine ⟨?_, hfound⟩
-  -- interface ids are never changed by the bookkeeping
-  have hid : ∀ (s1 s2 : St), (∀ (j : Nat) (itf2 : Interface), s2.types.interfaces[j]? = some itf2 →
-      ∃ itf1 : Interface, s1.types.interfaces[j]? = some itf1 ∧ itf1.id = itf2.id) → s2.owners = s1.owners →
-      OwnNamed s1 → OwnNamed s2 := by
-    intro s1 s2 hi ho h1 a j n hl itf hitf
-    rw [ho] at hl
-    obtain ⟨itf1, h11, h12⟩ := hi j itf hitf
-    rw [← h12]
-    exact h1 a j n hl itf1 h11
-  unfold useOrOwn at h
-  split at h
-  · rename_i other orig hfo
-    simp only at h
-    cases h
-    -- the state after the `uses` update
-    have key : ∀ s1 : St, OwnNamed s1 →
-        (∀ (j : Nat) (itf2 : Interface), s1.types.interfaces[j]? = some itf2 →
-          ∃ itf1 : Interface, st.types.interfaces[j]? = some itf1 ∧ itf1.id = itf2.id) →
-        OwnNamed (match lookup s1.owners created with
-          | some _ => s1
-          | none => { s1 with owners := (created, (other, orig)) :: s1.owners }) := by
-      intro s1 h1 hi
-      split
-      · exact h1
-      · intro a j n hl itf hitf
-        have hl' : lookup ((created, (other, orig)) :: s1.owners) a = some (.interface j, n) := hl
-        rw [lookup_cons] at hl'
-        split at hl'
-        · cases hl'
-          obtain ⟨itf1, h11, h12⟩ := hi j itf hitf
-          rw [← h12]
-          exact hfound _ _ hfo itf1 h11
-        · exact h1 a j n hl' itf hitf
-    have hmodI : ∀ (id : Nat) (f : Interface → Interface), (∀ x, (f x).id = x.id) →
-        ∀ (j : Nat) (itf2 : Interface), (modifyInterface st id f).types.interfaces[j]? = some itf2 →
-          ∃ itf1 : Interface, st.types.interfaces[j]? = some itf1 ∧ itf1.id = itf2.id := by
-      intro id f hf j itf2 h2
-      simp only [modifyInterface, getElem?_modify'] at h2
-      obtain ⟨itf1, h11, h12⟩ := Option.map_eq_some_iff.mp h2
-      refine ⟨itf1, h11, ?_⟩
-      rw [← h12]
-      split
-      · exact (hf itf1).symm
-      · rfl
-    apply key
-    · split
-      · split
-        · split
-          · exact hid st _ (hmodI _ _ (fun _ => rfl)) rfl hinv
-          · exact hid st _ (fun j itf2 h2 => ⟨itf2, h2, rfl⟩) rfl hinv
-        · exact hinv
-      · exact hinv
-    · split
-      · split
-        · split
-          · exact hmodI _ _ (fun _ => rfl)
-          · exact fun j itf2 h2 => ⟨itf2, h2, rfl⟩
-        · exact fun j itf2 h2 => ⟨itf2, h2, rfl⟩
-      · exact fun j itf2 h2 => ⟨itf2, h2, rfl⟩
-  · split at h
-    · cases h; exact hinv
-    · rename_i hidless
-      split at h
-      · cases h; exact hinv
-      · cases h
-        intro a j n hl itf hitf
-        have hl' : lookup ((created, (owner, name)) :: st.owners) a = some (.interface j, n) := hl
-        rw [lookup_cons] at hl'
-        split at hl'
-        · cases hl'
-          have hitf' : st.types.interfaces[j]? = some itf := hitf
-          simp only [ownerIdless, hitf'] at hidless
-          cases hid' : itf.id <;> simp_all
-        · exact hinv a j n hl' itf hitf
-
-/-- non-vacuity: the empty state has only named owners; interface 1 (`a:b/c`) takes ownership,
-interface 0 (no id) does not -/
-example : OwnNamed {} := by intro a j n h; simp [lookup] at h
-example :
-    let st : St := { types := { interfaces := [{ id := none }, { id := some "a:b/c".toList }] } }
-    (match useOrOwn {} st (.interface 0) "t".toList (.defined 0) (.defined 0),
-           useOrOwn {} st (.interface 1) "t".toList (.defined 0) (.defined 0) with
-      | .ok s0, .ok s1 => s0.owners.isEmpty && s1.owners.length == 1
-      | _, _ => false) = true := by decide +kernel
 
 end Wac.Props.C08
